@@ -338,9 +338,40 @@ pub mod shim {
             }
         }
 
-        /// For the inspector: is the lock free right now?
+        /// Is the lock held right now? (also used by the inspector)
         pub fn is_locked(&self) -> bool {
             self.0.is_locked()
+        }
+
+        pub fn try_lock(&self) -> Option<MutexGuard<'_, T>> {
+            let addr = self as *const Self as usize;
+            let g = self.0.try_lock()?;
+            event(Ev::LockAcquired, addr, 1);
+            Some(MutexGuard {
+                inner: Some(g),
+                addr,
+            })
+        }
+
+        /// # Safety
+        /// As for `parking_lot::Mutex::force_unlock`: the caller must own the lock.
+        pub unsafe fn force_unlock(&self) {
+            self.0.force_unlock();
+            event(Ev::LockReleased, self as *const Self as usize, 1);
+        }
+
+        pub fn get_mut(&mut self) -> &mut T {
+            self.0.get_mut()
+        }
+
+        pub fn into_inner(self) -> T {
+            self.0.into_inner()
+        }
+    }
+
+    impl<T> std::ops::DerefMut for MutexGuard<'_, T> {
+        fn deref_mut(&mut self) -> &mut T {
+            self.inner.as_mut().unwrap()
         }
     }
 
